@@ -103,7 +103,7 @@ PROPS = {
             [rnd("both", "iter", 2500, 50, exclude="itermut,iter,intoiter,drain", boost="sortediter:3"),
              # sorted consumption of queues that went through in-place mutation from either end
              rnd("both", "iter", 1500, 50, exclude="iter,intoiter,drain", boost="sortediter:3,itermut:2"),
-             rnd("both", "bulk", 1000, 50, exclude="serde,deser,eq,retain,retainmut,intovec", boost="sortedvec:6"),
+             rnd("both", "bulk", 1000, 50, exclude="serde,deser,eq,intovec", boost="sortedvec:6,retainmut:3"),
              builds("pq", 4), builds("dpq", 5), pygen("big_sorted", 2)],
             [rnd("both", "iter", 20000, 80, exclude="itermut,iter,intoiter,drain", boost="sortediter:3"), builds("dpq", 7), pygen("big_sorted", 4)]),
     ),
